@@ -42,6 +42,13 @@ CLAIMS = {
             "Bounded (Kani, 3 bytes, not counted as proved): the front-matter line scanner tiles its input. "
             "Not decided: the rest of the front-matter split, the composition over all blocks (Iterator::next glue), blank-name sections and `>` "
             "text paragraphs.", VERUS + " + " + KANI),
+    "C06": ("model_checking", "Partial, mostly bounded. Proof (Verus): every timer the parser emits has a name or a quantity. Bounded (Kani, "
+            "on a RecipeCollector built the way parse_events builds it): an intermediate reference to a step / section is accepted "
+            "exactly when that earlier step of the same section / earlier section exists and resolves to its index (K14); a new "
+            "reference is listed back by its definition exactly once, as the index it is about to get (K16); thorough tier: "
+            "resolve_reference links a component to the last earlier definition with the same name, never to a reference, and marks "
+            "it as a reference to that index (K15: two earlier cookware items, one-letter names). Step numbering, item indices, "
+            "non-emptiness and the whole-recipe statement are not decided.", VERUS + " + " + KANI + " (bounded stand-ins, labelled bounded)"),
     "C07": ("proof", "Partial. Leaf parse-stage checks as postconditions: check_modifiers / check_empty_name emit exactly one error iff "
             "the forbidden construct is present; section / metadata_entry / check_alias / check_note / comp_body emit at most one "
             "diagnostic of the documented severity; all diagnostics queued by component parsers are Error/Warning events "
@@ -89,7 +96,6 @@ CLAIMS = {
 
 NA_REASON = {
     "C01": "needs a functional specification of the whole language plus a printer that is not in the repository; the local facts it rests on are claimed under C04/C05/C02 (DESIGN.md §6)",
-    "C06": "the analysis pass (event_consumer.rs) is outside both tools as written: closures capturing &mut self, OnceCell, unicase, rposition/nth_back, serde_yaml; Kani runs out of memory on it (DESIGN.md §6)",
     "C09": "floating-point tolerance claims over HashMap/EnumMap/Arc data; Verus has no float theory, CBMC times out (DESIGN.md §6)",
     "C14": "relational property over two Peekable-based scanners plus the analysis pass; out of reach (DESIGN.md §6)",
     "C15": "behaviour lives in serde derive output and serde_json; not contractable here (DESIGN.md §6)",
